@@ -81,6 +81,54 @@ class ShrinkBudget:
         return time.time() - self.t0 < self.seconds
 
 
+class ExtraBudget:
+    """Wall-clock cap for the property-specific extra checks of the QUICK tier.  Items marked
+    optional (further repetitions of a class that has already run once, reproductions of known
+    findings) are skipped once the budget is used up; every skip is recorded and ends up in the
+    evidence note -- a skipped item is never counted as a pass."""
+
+    def __init__(self, tier, seconds=40.0):
+        self.limit = seconds if tier == "quick" else float("inf")
+        self.t0 = time.time()
+        self.skipped = []
+
+    def elapsed(self):
+        return time.time() - self.t0
+
+    def allow(self, label):
+        if self.elapsed() > self.limit:
+            self.skipped.append(label)
+            return False
+        return True
+
+    def note(self):
+        if not self.skipped:
+            return ""
+        kinds = {}
+        for s in self.skipped:
+            kinds[s] = kinds.get(s, 0) + 1
+        return " [skipped for time after %.0f s of extra checks: %s]" % (
+            self.limit, ", ".join("%s x%d" % kv for kv in sorted(kinds.items())))
+
+
+class Phases:
+    """where the wall time of a check went (reported as an extra-check entry, so a slow run can be
+    explained afterwards: proof build / waiting for the shared build lock, scripted cases, shards, extras)"""
+
+    def __init__(self):
+        self.marks = []
+
+    def mark(self, name):
+        self.marks.append((name, time.time()))
+
+    def entry(self):
+        parts = []
+        for (a, ta), (b, tb) in zip(self.marks, self.marks[1:]):
+            parts.append("%s %.1fs" % (a, tb - ta))
+        return {"name": "timing", "evaluations": 0, "failures": [],
+                "note": "wall time by phase: " + ", ".join(parts)}
+
+
 class HarnessAbort(BaseException):
     """raised out of every gate once the harness gave up on a run"""
 
